@@ -289,9 +289,6 @@ func Silence() {
 		return
 	}
 	syscall.Dup2(int(null.Fd()), 1)
-	if os.Getenv("VERIF_KEEP_STDERR") == "" {
-		syscall.Dup2(int(null.Fd()), 2)
-	}
 }
 
 // Say writes to the original stderr even after Silence.
